@@ -61,15 +61,17 @@ Thm ==
 DecOf(ns) == IF Len(ns) = 1 /\ ~HasErr(ns) THEN Jsonable(Decode(ns[1], DefDec)) ELSE VM(EmptyFn)
 Case(kind, go, ns) == [kind |-> kind, go |-> go, x |-> Join(RenderCompact(ns, EO(go))), one |-> Len(ns) = 1 /\ ~HasErr(ns), dec |-> DecOf(ns)]
 RT == <<"r">>
+RT2 == <<"a">>      \* a root tag that is also a key of the alphabet (a single-key Map {a: ..} is still wrapped)
 Emit == (DoEmit /\ TextOK(m) /\ RootKeyOK) =>
    PrintT(ToJson([f |-> "encv", ap |-> AP, kp |-> KP, m |-> Jsonable(m),
       cs |-> SetToSeq(UNION {{Case("xml", go, EncodeRoot(m, <<>>, EO(go))), Case("xmlroot", go, EncodeRoot(m, RT, EO(go))),
-                               Case("indentroot", go, EncodeRootIndent(m, <<>>, EO(go))), Case("any", go, AnyXml(m, RT, ElementTag, EO(go)))} : go \in BOOLEAN}),
+                               Case("indentroot", go, EncodeRootIndent(m, <<>>, EO(go))), Case("any", go, AnyXml(m, RT, ElementTag, EO(go))),
+                               Case("xmlroota", go, EncodeRoot(m, RT2, EO(go))), Case("anya", go, AnyXml(m, RT2, ElementTag, EO(go)))} : go \in BOOLEAN}),
       \* AnyXml on each top-level value (lists, scalars, nil)
       vs |-> SetToSeq({[key |-> Join(k), go |-> go, x |-> Join(RenderCompact(AnyXml(m.kv[k], RT, ElementTag, EO(go)), EO(go)))] : k \in DOMAIN m.kv, go \in BOOLEAN})]))
 Spec == GenSpec
 cKeys == {<<"a">>, <<"b">>, <<AP, "x">>, TK}
-cScalars == {VS(<<>>), VS(<<"y">>), VS(<<"<", "&">>), VF(<<"1", ".", "5">>), VB(<<"t", "r", "u", "e">>), VNilC}
-cScalarsQ == {VS(<<>>), VS(<<"<", "&">>), VF(<<"1", ".", "5">>), VNilC}
+cScalars == {VS(<<>>), VS(<<"y">>), VS(<<"<", "&">>), VS(<<"]", "]", ">">>), VF(<<"1", ".", "5">>), VB(<<"t", "r", "u", "e">>), VNilC}
+cScalarsQ == {VS(<<>>), VS(<<"<", "&">>), VS(<<"]", "]", ">">>), VF(<<"1", ".", "5">>), VNilC}
 cConts == {EmptyMap, EmptyList}
 =============================================================================
